@@ -143,9 +143,15 @@ func decodeRecord(f Format, payload []byte, named, caller bool) (*decoded, error
 		}
 		d.Time = main[:bar]
 		rest := main[bar+2:]
-		lb := strings.Index(rest, "[")
-		rb := strings.Index(rest, "] ")
-		if lb < 0 || rb < lb {
+		// the level tag is "[" + 3 bytes + "] " (default width); a logger name may itself contain brackets
+		lb, rb := -1, -1
+		for i := 0; i+5 < len(rest); i++ {
+			if rest[i] == '[' && rest[i+4] == ']' && rest[i+5] == ' ' && (i == 0 || rest[i-1] == ' ') {
+				lb, rb = i, i+4
+				break
+			}
+		}
+		if lb < 0 {
 			return nil, fmt.Errorf("no level tag in colored record")
 		}
 		if lb > 0 {
